@@ -1,7 +1,7 @@
 ---------------------------- MODULE Base ----------------------------
 EXTENDS Integers, Sequences, FiniteSets
 Pow2(n) == 2^n
-Xor(a, b) == (a + b) % 2
+BXor(a, b) == (a + b) % 2
 Byte == 0..255
 \* ---- bit vectors: functions 0..W-1 -> {0,1}; bit 0 = least significant ----
 BitOfBytes(bs, i) == (bs[(i \div 8) + 1] \div Pow2(i % 8)) % 2
